@@ -41,7 +41,7 @@ type c03KillTask struct {
 	Ops       []c03Op `json:"ops"`
 	AckLog    string  `json:"ack_log"`
 	EventLog  string  `json:"event_log"`
-	KillEvent int     `json:"kill_event"` // >0: kill when this vos event fires (counted from history start)
+	KillEvent int     `json:"kill_event"`    // >0: kill when this vos event fires (counted from history start)
 	KillAfter int     `json:"kill_after_us"` // >0: kill this many microseconds after history start
 }
 
